@@ -32,15 +32,32 @@ VARIABLE l
 (* short by `offset` slots.                                                 *)
 KF(ev) ==
   IF ev.ev = "produced" /\ ev.api = "ArrayData::slice" /\ ~WellFormed(ev.d) /\ WF(ev.d, {"struct-offset"})
-    THEN "C01-arraydata-slice-struct-offset"
+    THEN "C01-arraydata-slice-struct"
   ELSE ""
+
+(* Known finding: filter_record_batch builds its result with                 *)
+(* RecordBatch::new_unchecked; a zero-width column (FixedSizeBinary(0),       *)
+(* FixedSizeList(_, 0)) comes back from `filter` with length 0 (C03 finding   *)
+(* C03-zero-width-length-lost), so the batch's columns disagree with its row  *)
+(* count.  Identified as: everything agrees except zero-width columns of      *)
+(* length 0.                                                                 *)
+ZeroWidth(c) == c.t.k \in {"fsb", "fsl"} /\ c.t.size = 0
+KFBatch(ev) ==
+  IF /\ ev.api = "filter_record_batch"
+     /\ Len(ev.cols) = Len(ev.schema)
+     /\ \E i \in 1..Len(ev.cols) : ZeroWidth(ev.cols[i]) /\ ev.cols[i].len # ev.nrows
+     /\ \A i \in 1..Len(ev.cols) :
+          /\ WellFormed(ev.cols[i])
+          /\ ev.cols[i].t.s = ev.schema[i].s
+          /\ (ev.cols[i].len = ev.nrows \/ (ZeroWidth(ev.cols[i]) /\ ev.cols[i].len = 0))
+  THEN "C01-filter-batch-zero-width" ELSE ""
 
 Init == l = 1
 Next == /\ l <= Len(Rec)
         /\ l' = l + 1
         /\ LET ev == Rec[l] IN
            CASE ev.ev = "produced" -> JudgeKF(WellFormed(ev.d), l, ev.api, KF(ev))
-             [] ev.ev = "batch"    -> Judge(BatchWellFormed(ev.schema, ev.cols, ev.nrows), l, ev.api)
+             [] ev.ev = "batch"    -> JudgeKF(BatchWellFormed(ev.schema, ev.cols, ev.nrows), l, ev.api, KFBatch(ev))
              [] OTHER              -> Judge(FALSE, l, "unknown event kind")
 Spec == Init /\ [][Next]_l
 =============================================================================
